@@ -228,9 +228,15 @@ impl WTClient {
             // DISCUSS: It may be nice to independently compute the slots and compare
             tower.available_slots = available_slots;
 
-            self.dbm
-                .store_appointment_receipt(tower_id, locator, available_slots, receipt)
-                .unwrap();
+            // The receipt may be there already (e.g. lightningd notified the same revocation twice)
+            if let Err(e) = self.dbm.store_appointment_receipt(
+                tower_id,
+                locator,
+                available_slots,
+                receipt,
+            ) {
+                log::warn!("Appointment receipt for {locator} not stored for {tower_id}. Error: {e:?}");
+            }
         } else {
             log::error!("Cannot add appointment receipt to tower. Unknown tower_id: {tower_id}");
         }
@@ -250,9 +256,13 @@ impl WTClient {
         if let Some(tower) = self.towers.get_mut(&tower_id) {
             tower.pending_appointments.insert(appointment.locator);
 
-            self.dbm
-                .store_pending_appointment(tower_id, appointment)
-                .unwrap();
+            // It may be pending already (e.g. lightningd notified the same revocation twice)
+            if let Err(e) = self.dbm.store_pending_appointment(tower_id, appointment) {
+                log::warn!(
+                    "Pending appointment {} not stored for {tower_id}. Error: {e:?}",
+                    appointment.locator
+                );
+            }
         } else {
             log::error!("Cannot add pending appointment to tower. Unknown tower_id: {tower_id}");
         }
@@ -276,9 +286,13 @@ impl WTClient {
         if let Some(tower) = self.towers.get_mut(&tower_id) {
             tower.invalid_appointments.insert(appointment.locator);
 
-            self.dbm
-                .store_invalid_appointment(tower_id, appointment)
-                .unwrap();
+            // It may be there already (e.g. lightningd notified the same revocation twice)
+            if let Err(e) = self.dbm.store_invalid_appointment(tower_id, appointment) {
+                log::warn!(
+                    "Invalid appointment {} not stored for {tower_id}. Error: {e:?}",
+                    appointment.locator
+                );
+            }
         } else {
             log::error!("Cannot add invalid appointment to tower. Unknown tower_id: {tower_id}");
         }
@@ -287,7 +301,10 @@ impl WTClient {
     /// Flags a given tower as misbehaving, storing the misbehaving proof in the database.
     pub fn flag_misbehaving_tower(&mut self, tower_id: TowerId, proof: MisbehaviorProof) {
         if let Some(tower) = self.towers.get_mut(&tower_id) {
-            self.dbm.store_misbehaving_proof(tower_id, &proof).unwrap();
+            // One proof is kept per tower: a second one (e.g. from a request that was in flight) changes nothing
+            if let Err(e) = self.dbm.store_misbehaving_proof(tower_id, &proof) {
+                log::warn!("Misbehaving proof not stored for {tower_id}. Error: {e:?}");
+            }
             tower.status = TowerStatus::Misbehaving;
         } else {
             log::error!("Cannot flag tower. Unknown tower_id: {tower_id}");
